@@ -118,6 +118,7 @@ func c08Property(t *rapid.T) {
 	if rapid.IntRange(0, 3).Draw(t, "reset-on-logout") == 0 {
 		cfg.settings[config.ResetOnLogout] = "Y"
 	}
+	drawExtras(t, c, &cfg)
 	s := newSim(t, c, cfg)
 	defer s.close()
 	mon := &c08mon{feat: map[string]bool{}}
